@@ -83,7 +83,7 @@ def _build(ctx, name, harness_c, repo_srcs, cpu=None, extra=(), ldflags=(), sani
     return exe, err
 
 
-def _run_stream(cmd, cases, tmp, tag, env=None, timeout=600):
+def _run_stream(cmd, cases, tmp, tag, env=None, timeout=None):
     if len(cmd) >= 2 and cmd[0] == vlib.PMODEL and cmd[1].startswith("@exe:"):
         exe = cmd[1][5:]
         if not os.path.exists(exe) and _CTX[0] is not None:          # e.g. --replay: build the reference now
